@@ -69,6 +69,7 @@ let parse_op () : op * string option =
     let r = next_str () in let t = next_str () in
     (Put (a, { c_user = u; c_pass = p; c_refresh = r; c_access = t }), None)
   | "D" -> (Delete (next_str ()), None)
+  | "C" -> (SetCs (next_str ()), None)
   | t -> raise (Bad ("op " ^ t))
 
 let canon_entry = function
